@@ -21,7 +21,12 @@ EXTENDS Detection
 LsCovers(fls, rls) == /\ (fls.cat = <<>> \/ fls.cat = rls.cat)
                     /\ (fls.prod = <<>> \/ fls.prod = rls.prod)
                     /\ (fls.svc = <<>> \/ fls.svc = rls.svc)
-Named(f, r) == f.any \/ f.rules = <<>> \/ \E k \in 1..Len(f.rules) : f.rules[k] \in {r.name, r.uid}
+\* an entry of the rule list names a rule by its name or by its identifier; an identifier is a UUID, whose hexadecimal
+\* digits mean the same in either case
+IsHexDigit(c) == (c >= 48 /\ c <= 57) \/ (c >= 97 /\ c <= 102) \/ (c >= 65 /\ c <= 70)
+IsUuidText(t) == Len(t) = 36 /\ \A i \in 1..36 : IF i \in {9, 14, 19, 24} THEN t[i] = 45 ELSE IsHexDigit(t[i])
+SameId(a, b) == a = b \/ (IsUuidText(a) /\ IsUuidText(b) /\ LowerSeq(a) = LowerSeq(b))
+Named(f, r) == f.any \/ f.rules = <<>> \/ \E k \in 1..Len(f.rules) : f.rules[k] = r.name \/ SameId(f.rules[k], r.uid)
 Applies(f, r) == LsCovers(f.ls, r.ls) /\ Named(f, r)
 
 \* ---- Ideal meaning ----------------------------------------------------------------------
